@@ -107,14 +107,34 @@ class Ctx:
             self.samples.append(obj)
 
     # ---- findings -----------------------------------------------------------
+    def _mine(self, f):
+        p = f['property']
+        return self.prop_id in p if isinstance(p, list) else p == self.prop_id
+
     def findings(self, status=None):
-        return [f for f in self._findings if f['property'] == self.prop_id and (status is None or f['status'] == status)]
+        return [f for f in self._findings if self._mine(f) and (status is None or f['status'] == status)]
 
     def finding(self, fid):
         for f in self._findings:
-            if f['id'] == fid and f['property'] == self.prop_id:
+            if f['id'] == fid and self._mine(f):
                 return f
         return None
+
+    def replay_demos(self):
+        """Every listed finding that carries a demo script is replayed against /repo
+        (exit 0 = behaves correctly, exit 1 = defect present)."""
+        for f in self.findings():
+            demo = f.get('demo')
+            if not demo:
+                continue
+            try:
+                p = subprocess.run([PY, os.path.join(VERIF, demo)], capture_output=True, text=True, timeout=300,
+                                   env=impl_env(), cwd=self.workdir)
+                fails = p.returncode != 0
+            except subprocess.TimeoutExpired:
+                fails = True
+            self.count(1, key='demo:' + f['id'], nontrivial=True)
+            self.known_finding(f['id'], still_fails=fails)
 
     def known_finding(self, fid, still_fails, what=None):
         """Report the state of a listed finding after replaying its witness."""
@@ -166,10 +186,15 @@ class Ctx:
 
 # ---------------------------------------------------------------------------
 def load_findings():
+    """known_findings.json plus the per-property files known_findings.d/*.json
+    (all committed; never written at run time)."""
+    out = []
     p = os.path.join(VERIF, 'known_findings.json')
-    if not os.path.exists(p):
-        return []
-    return json.load(open(p))['findings']
+    if os.path.exists(p):
+        out.extend(json.load(open(p))['findings'])
+    for f in sorted(glob.glob(os.path.join(VERIF, 'known_findings.d', '*.json'))):
+        out.extend(json.load(open(f)))
+    return out
 
 
 def regen_tables():
@@ -253,18 +278,36 @@ def strip_comments(src):
     return ''.join(out)
 
 
-def hygiene():
-    bad = []
+def coq_closure(prop_id):
+    """Source files props/<prop_id>.v depends on (transitively), by parsing Require lines."""
+    index = {}
     for f in glob.glob(os.path.join(COQDIR, '*', '*.v')):
+        index[os.path.splitext(os.path.basename(f))[0]] = f
+    seen, todo = set(), [prop_id]
+    while todo:
+        m = todo.pop()
+        if m in seen or m not in index:
+            continue
+        seen.add(m)
+        src = strip_comments(open(index[m]).read())
+        for req in re.findall(r'Require\s+(?:Import|Export)?\s*([^.]*(?:\.[A-Za-z_][^.]*)*)\.\s', src):
+            for name in req.split():
+                todo.append(name.split('.')[-1])
+    return sorted(index[m] for m in seen)
+
+
+def hygiene(prop_id=None):
+    bad = []
+    files = coq_closure(prop_id) if prop_id else glob.glob(os.path.join(COQDIR, '*', '*.v'))
+    for f in files:
         src = strip_comments(open(f).read())
         for n, line in enumerate(src.split('\n'), 1):
             if HYGIENE.search(line):
                 bad.append('%s:%d: %s' % (os.path.relpath(f, VERIF), n, line.strip()[:120]))
-            # Variable/Hypothesis outside a section
         depth = 0
         for n, line in enumerate(src.split('\n'), 1):
             s = line.strip()
-            if re.match(r'Section\s+\w+', s):
+            if re.match(r'(Section|Module)\s+\w+', s):
                 depth += 1
             elif re.match(r'End\s+\w+', s) and depth:
                 depth -= 1
@@ -387,7 +430,7 @@ def main(argv):
                 ctx.coq_ok = False
                 ctx.broken_tie('Coq development for %s no longer builds (proof obligation broken)' % meta['id'], log2[-3000:])
         # 3. hygiene
-        bad = hygiene()
+        bad = hygiene(meta['id'])
         if bad:
             ctx.coq_ok = False
             ctx.broken_tie('hygiene scan: forbidden construct in the Coq development', bad[:20])
@@ -409,7 +452,8 @@ def main(argv):
             except BrokenTie as e:
                 ctx.coq_ok = False
                 ctx.broken_tie(str(e))
-        # 5-8. property module
+        # 5-8. witnesses of listed findings, then the property module
+        ctx.replay_demos()
         mod.run(ctx)
         ctx.finish_broken()
     except Exception as e:  # harness failure: fail closed, loudly
